@@ -60,7 +60,8 @@ fn run_smol() -> i32 {
             drop(conn);
         };
         let mut v = Vec::new();
-        let recv = async { let _ = b.read_to_end(&mut v).await; };
+        // the peer starts reading late: the sender must hit a full socket buffer and wait for it to drain
+        let recv = async { async_io::Timer::after(Duration::from_millis(150)).await; let _ = b.read_to_end(&mut v).await; };
         future::zip(send, recv).await;
         judge(&v)
     })
@@ -97,7 +98,8 @@ fn bulk_tokio() -> i32 {
         use tokio::io::AsyncReadExt;
         let (a, mut b) = tokio::net::UnixStream::pair().unwrap();
         let mut conn = zlink_tokio::Connection::new(zlink_tokio::unix::Stream::from(a));
-        let reader = tokio::task::spawn_local(async move { let mut v = Vec::new(); let _ = b.read_to_end(&mut v).await; v });
+        // the peer starts reading late: the sender must hit a full socket buffer and wait for it to drain
+        let reader = tokio::task::spawn_local(async move { tokio::time::sleep(Duration::from_millis(150)).await; let mut v = Vec::new(); let _ = b.read_to_end(&mut v).await; v });
         let calls = bulk_calls();
         let r0 = tokio::time::timeout(Duration::from_secs(20), conn.send_call(&zlink_tokio::Call::new(&calls[0]))).await;
         tokio::task::yield_now().await;
@@ -127,7 +129,8 @@ fn bulk_smol() -> i32 {
             drop(conn);
         };
         let mut v = Vec::new();
-        let recv = async { let _ = b.read_to_end(&mut v).await; };
+        // the peer starts reading late: the sender must hit a full socket buffer and wait for it to drain
+        let recv = async { async_io::Timer::after(Duration::from_millis(150)).await; let _ = b.read_to_end(&mut v).await; };
         // watchdog: a transfer that stalls (e.g. the sender waiting for the wrong readiness) IS a loss of messages
         let done = future::or(async { future::zip(send, recv).await; true }, async { async_io::Timer::after(Duration::from_secs(20)).await; false }).await;
         if !done {
@@ -193,7 +196,8 @@ fn atomic_tokio(size: usize) -> i32 {
             seq += 1;
             if seq > 200_000 { println!("socket never filled"); return 2; }
         };
-        let reader = tokio::task::spawn_local(async move { let mut v = Vec::new(); let _ = b.read_to_end(&mut v).await; v });
+        // the peer starts reading late: the sender must hit a full socket buffer and wait for it to drain
+        let reader = tokio::task::spawn_local(async move { tokio::time::sleep(Duration::from_millis(150)).await; let mut v = Vec::new(); let _ = b.read_to_end(&mut v).await; v });
         let r = tokio::time::timeout(Duration::from_secs(20), conn.send_call(&zlink_tokio::Call::new(&M::Small { n: 1 }))).await;
         if !matches!(r, Ok(Ok(()))) { println!("final send: {r:?}"); }
         drop(conn);
@@ -220,7 +224,8 @@ fn atomic_smol(size: usize) -> i32 {
             drop(conn);
         };
         let mut v = Vec::new();
-        let recv = async { let _ = b.read_to_end(&mut v).await; };
+        // the peer starts reading late: the sender must hit a full socket buffer and wait for it to drain
+        let recv = async { async_io::Timer::after(Duration::from_millis(150)).await; let _ = b.read_to_end(&mut v).await; };
         future::zip(send, recv).await;
         judge_atomic(&v, size, abandoned)
     })
